@@ -277,8 +277,8 @@ fn run_manrace(tracer: &Tracer, rng: &mut StdRng, r: u64, tag: Value) {
 
 /// Writer hand-over between two Index instances: instance B asks for a writer from another thread while A
 /// still holds the lock (refused: LockBusy), A commits once more and drops, B asks again.  A directory gate
-/// parks B's thread right after any read of .managed.json it makes BEFORE it holds the writer lock (the code
-/// reads the list under the lock, so nothing is parked; a writer creation that reads first is held there
+/// parks B's thread right after any read of .managed.json or meta.json it makes BEFORE it holds the writer lock
+/// (the code reads both under the lock, so nothing is parked; a writer creation that reads first is held there
 /// until A has committed and dropped).  The end of the run is judged like every other run.
 fn run_handover(tracer: &Tracer, rng: &mut StdRng, tag: Value) {
     use std::sync::atomic::{AtomicBool, Ordering};
@@ -312,7 +312,7 @@ fn run_handover(tracer: &Tracer, rng: &mut StdRng, tag: Value) {
         if op.op == "open_write" && op.path == ".tantivy-writer.lock" && after {
             lh.store(true, Ordering::SeqCst);
         }
-        if op.op == "atomic_read" && op.path == ".managed.json" && after && !lh.load(Ordering::SeqCst) {
+        if op.op == "atomic_read" && (op.path == ".managed.json" || op.path == "meta.json") && after && !lh.load(Ordering::SeqCst) {
             let (m, cv) = &*st2;
             let mut g = m.lock().unwrap();
             if !g.0 {
@@ -330,6 +330,9 @@ fn run_handover(tracer: &Tracer, rng: &mut StdRng, tag: Value) {
     let threads = cfg.threads;
     let first_refused = Arc::new(AtomicBool::new(false));
     let fr = first_refused.clone();
+    // B tries again only once A's release has been logged (the log line of A's wait_merges lists the lock files)
+    let go = Arc::new(AtomicBool::new(false));
+    let go2 = go.clone();
     let h = std::thread::Builder::new()
         .name("handover-b".into())
         .spawn(move || {
@@ -344,7 +347,10 @@ fn run_handover(tracer: &Tracer, rng: &mut StdRng, tag: Value) {
                         if tries > 400 {
                             return (None, tries);
                         }
-                        std::thread::sleep(Duration::from_millis(5));
+                        let t0 = std::time::Instant::now();
+                        while !go2.load(Ordering::SeqCst) && t0.elapsed() < Duration::from_secs(10) {
+                            std::thread::sleep(Duration::from_millis(2));
+                        }
                     }
                 }
             }
@@ -363,6 +369,7 @@ fn run_handover(tracer: &Tracer, rng: &mut StdRng, tag: Value) {
     }
     w.exec(&json!({"op":"commit"}));
     w.exec(&json!({"op":"wait_merges"}));
+    go.store(true, Ordering::SeqCst);
     {
         let (m, cv) = &*st;
         m.lock().unwrap().1 = true;
